@@ -50,9 +50,9 @@ CHECKS.update({
    "function level: bounded-exhaustive enumeration over fee bps x max-fee x amounts x epoch vs exact reference; handler level: explicit-state search over transfer-fee pools with the real Token-2022 processor, oracles from real balances + H2 trace + events",
    "Function-level: excluded+fee==amount, included is the least pre-image or errors only when none exists, Anchor==Pinocchio, TLV parser == spl-token-2022. Handler-level: every swap / increase / decrease within the depth bound moves exactly the curve amounts into/out of the vault, charges the smallest fee-including amount, applies thresholds and caller bounds to what the user pays/receives, reports the amounts moved; solvency invariant holds.",
    SVM + " One fee schedule per mint at handler level (epoch selection is function-level).", "DESIGN.md §3 C16"),
- "C19": (B, "exploration",
-   "complete tables: all 2^17 extension subsets x default-state x freeze x 8 badge states (thorough), all u16 setter arguments, validate_constants cross product; representatives end-to-end through initialize_pool_v2 / initialize_reward_v2",
-   "Admission verdict equals the table for every extension combination and badge state; setters accept exactly in-bound values; validate_constants equals the published rules; end-to-end pool/reward creation succeeds iff admitted.",
+ "C19": (A, "model_checking",
+   "explicit-state search over initialise/set instruction sequences with bound-straddling arguments and bound-reaching swaps (invariant on every Whirlpool/FeeTier/AdaptiveFeeTier/Oracle/Config account of every state) + complete tables: all 2^17 extension subsets x default-state x freeze x 8 badge states (thorough), all u16 setter arguments, validate_constants cross product; representatives end-to-end",
+   "Every state reachable within the depth bound keeps all stored parameters in bounds and every out-of-bound argument is refused; admission verdict equals the table for every extension combination and badge state; setters accept exactly in-bound values; validate_constants equals the published rules; end-to-end pool/reward creation succeeds iff admitted.",
    "Table rows the statement does not name follow the code's allow-list (recorded as assumptions in the evidence).", "DESIGN.md §3 C19"),
 })
 
